@@ -99,6 +99,10 @@ func (r *runner) scenario() {
 	T.PutEnc(big.NewInt(-1), garbage[:])
 	for i := 0; i < cs.N; i++ {
 		privs[i], kz[i] = cosih.SeedKey(kr)
+		if cs.Kind == "degenerate-key" && i == 1 { // K_1 = -K_0: the aggregated key of {0,1} is the identity
+			kz[1] = new(big.Int).Sub(cosih.L, kz[0])
+			privs[1] = cosih.KeyOf(kz[1])
+		}
 		p := privs[i].Public()
 		publics[i] = &p
 	}
@@ -163,6 +167,10 @@ func (r *runner) scenario() {
 	var wantMask uint64
 	for pos, i := range cs.Signers {
 		rk, z := cosih.SeedKey(nr)
+		if cs.Kind == "degenerate-commitment" && pos == 1 { // R_1 = -R_0: the aggregated commitment is the identity
+			z = new(big.Int).Sub(cosih.L, rz[cs.Signers[0]])
+			rk = cosih.KeyOf(z)
+		}
 		rkeys[i], rz[i] = rk, z
 		R := rk.Public()
 		randoms[i] = &R
@@ -785,6 +793,12 @@ func corpus(r *vh.Rand) []Case {
 	for i := range cosih.Specials() {
 		q := gen(r, "seq-cache", 2)
 		q.Signers, q.BadKey, q.BadIdx, q.Aux, q.Threshold, q.Victim = []int{0, 1}, "special", 1, i, 1+i%2, 0
+		cs = append(cs, q)
+	}
+	for _, k := range []string{"degenerate-key", "degenerate-commitment", "degenerate-key", "degenerate-commitment"} {
+		// the side conditions of completeness: identity as aggregated key / commitment (model: FullVerify refuses)
+		q := gen(r, k, 2)
+		q.Signers, q.Threshold = []int{0, 1}, 1+len(cs)%2
 		cs = append(cs, q)
 	}
 	for i := 0; i < 6; i++ { // order-dependent sequences on one object: each tamper mode, small and large masks
